@@ -244,3 +244,53 @@ func VH_C19_transport_server_is_hidden_iff_hidden_vhosts_are_configured() {
 		verifCover("discoverable")
 	}
 }
+
+// C01 / C05: the transport-layer client policy the hop server runs with is what
+// its configuration says - for all 16 combinations of the four switches.
+//
+//verif:prop C01
+//verif:replay none
+//verif:stub hop.computer/hop/hopserver.NewVirtualHosts = c10NewVirtualHosts
+//verif:stub net.ListenPacket = c10ListenPacket
+//verif:stub hop.computer/hop/transport.NewServer = c10NewServer
+//verif:bounds InsecureSkipVerify, DisableCertificateValidation, EnableAuthgrants, EnableAuthorizedKeys each on or off (no users preloaded); real NewHopServer and NewHopServerExt (which CA certificates end up in the store is not observable from outside the certs package and is not asserted)
+//verif:cover built
+func VH_C01_client_verification_policy_follows_the_server_configuration() { c01Policy("C01") }
+
+//verif:prop C05
+//verif:replay none
+//verif:stub hop.computer/hop/hopserver.NewVirtualHosts = c10NewVirtualHosts
+//verif:stub net.ListenPacket = c10ListenPacket
+//verif:stub hop.computer/hop/transport.NewServer = c10NewServer
+//verif:bounds as VH_C01_client_verification_policy_follows_the_server_configuration
+//verif:cover built
+func VH_C05_grant_keys_are_admitted_by_the_transport_only_when_grants_are_enabled() { c01Policy("C05") }
+
+func c01Policy(prop string) {
+	c10Hosts = VirtualHosts{{Pattern: "*"}}
+	sc := &config.ServerConfig{ListenAddress: "localhost:0"}
+	sc.InsecureSkipVerify = verifBool("InsecureSkipVerify")
+	sc.DisableCertificateValidation = verifBool("DisableCertificateValidation")
+	sc.EnableAuthgrants = verifBool("EnableAuthgrants")
+	sc.EnableAuthorizedKeys = verifBool("EnableAuthorizedKeys")
+	s, err := NewHopServer(sc)
+	verifAssert(err == nil && s != nil, prop+": the hop server is built")
+	if err != nil || s == nil {
+		return
+	}
+	verifCover("built")
+	v := c10Captured.ClientVerify
+	verifAssert(v != nil, prop+": the transport server always gets a client-verification policy object")
+	if v == nil {
+		return
+	}
+	verifAssert(v.InsecureSkipVerify == sc.InsecureSkipVerify, prop+": client certificates are left unverified iff the configuration says InsecureSkipVerify")
+	keysOn := !sc.InsecureSkipVerify && (sc.EnableAuthgrants || sc.EnableAuthorizedKeys)
+	verifAssert(v.AuthKeysAllowed == keysOn, prop+": bare keys (authorized_keys entries, grant keys) are admitted at the transport layer iff authorized keys or grants are enabled")
+	verifAssert((v.AuthKeys != nil) == keysOn, prop+": a key set exists iff bare keys are admitted")
+	if keysOn {
+		// a grant issued later must admit its key at the transport layer: the
+		// hop server's key store IS the transport's key set
+		verifAssert(s.keyStore == v.AuthKeys, prop+": the key set the hop server adds grant keys to is the one the transport consults")
+	}
+}
